@@ -8,9 +8,12 @@ B  TLC-generated schedules (all with <= 3 context switches for 2 threads; random
    replayed on real threads parked at the guarded hook points (harness/sched_main.cpp), one
    process per schedule; the serialised traces are validated by TLC against the model
    (trace/TraceSched.tla), each thread's result compared with the sequential one.
-C  The same schedules and a free-running start race on a ThreadSanitizer build; the limit-flip
-   workload (parse / can_parse while another thread flips set_max_input_length) validated by
-   trace/TraceUrl.tla ("cparse") and run under TSan."""
+C  The same schedules on a ThreadSanitizer build; the limit-flip workload (parse / can_parse / setters while another
+   thread flips set_max_input_length) validated by trace/TraceUrl.tla ("cparse", "cset") and run under TSan.
+D  Free-running first-use race (harness mode "race"): 8 threads released by a spin barrier, hooks off, each making the
+   process's first table-needing call through a different entry point (to_ascii, to_unicode, both URL types, URLPattern
+   with a non-ASCII group name, valid_name_code_point, is_label_valid); results compared with the sequential ones by
+   trace/TraceSched.tla; default and TSan builds (no harness lock between the barrier and the call)."""
 import json
 import os
 import re
@@ -343,6 +346,47 @@ def run(prop, tier, seed, replay=None):
                         f.write(json.dumps(d) + '\n' + o[-4000:])
                     violations.append(dict(path=rp, desc='limit flip (%s): %s' % (config, json.dumps(d)[:300])))
                     break
+
+        # ---- D: free-running first-use race through every entry point that needs the tables (one process per round)
+        for config in (['default', 'tsan']):
+            exe = vlib.build(config, 'sched_main.cpp')
+            rounds = (14 if config == 'default' else 7) if tier == 'quick' else (84 if config == 'default' else 35)
+            env = dict(os.environ, TSAN_OPTIONS='halt_on_error=0:exitcode=66:report_signal_unsafe=0:suppressions=' +
+                       os.path.join(vlib.VERIF, 'harness', 'tsan.supp'))
+            tr = os.path.join(work, 'race_%s.ndjson' % config)
+
+            def one_round(k):
+                pth = os.path.join(work, 'race_%s_%d.ndjson' % (config, k))
+                try:
+                    pr = subprocess.run([exe, 'race', pth, '8', str(k)], stdout=subprocess.PIPE, stderr=subprocess.STDOUT, timeout=300, env=env)
+                    return k, pth, pr.returncode, pr.stdout.decode(errors='replace')
+                except subprocess.TimeoutExpired:
+                    return k, pth, -9, 'timeout'
+            with ThreadPoolExecutor(max_workers=2) as tp:          # few at a time: the threads of one round must really overlap
+                rres = list(tp.map(one_round, range(rounds)))
+            outs = []
+            with open(tr, 'w') as out:
+                for k, pth, rc, o in rres:
+                    body = open(pth).read() if os.path.exists(pth) else ''
+                    if not body.startswith('{"e":"reset"'):
+                        body = '{"e":"reset","n":8}\n' + body
+                    out.write(body)
+                    if rc != 0:
+                        out.write(json.dumps({'e': 'crashed', 'what': 'tsan-report' if rc == 66 or 'ThreadSanitizer' in o else 'exit %d' % rc, 'round': k}) + '\n')
+                        outs.append(o[-3000:])
+            r = vlib.tlc_trace('TraceSched', tr, work, cfg=tcfg)
+            cov['states'] += r['distinct']
+            cov['transitions'] += r['states']
+            cov['traces_validated_against_impl'] += rounds
+            cov['evaluations'] += r['done']['lines']
+            cov['first_use_race_rounds'] = cov.get('first_use_race_rounds', 0) + rounds
+            for d in r['diags']:
+                rp = os.path.join(vlib.OUT, 'replay', 'C13_race_%d_%d.txt' % (os.getpid(), len(violations)))
+                os.makedirs(os.path.dirname(rp), exist_ok=True)
+                with open(rp, 'w') as f:
+                    f.write(json.dumps(d) + '\n' + (outs[0] if outs else ''))
+                violations.append(dict(path=rp, desc='first-use race (%s): %s' % (config, json.dumps(d)[:300])))
+                break
 
     cov['distinct_nontrivial'] = cov['traces_validated_against_impl']
     cov['rule'] = ('cases = schedules (interleavings of the initialisation protocol generated by TLC) executed on real threads, plus '
